@@ -572,14 +572,20 @@ def twin_listeners(ctx, seed, replay):
     def listener(n):
         class L(S.ServerServiceListener):
             def client_subscribed(self, sub, source):
-                logs[n].append((h.loop.time(), "subscribed", source, sub.id))
+                logs[n].append((h.loop.time(), "subscribed", source, (sub.instance_id, sub.id)))
 
             def client_unsubscribed(self, sub, source):
-                logs[n].append((h.loop.time(), "unsubscribed", source, sub.id))
+                logs[n].append((h.loop.time(), "unsubscribed", source, (sub.instance_id, sub.id)))
 
         return L()
 
-    svc = C.Service(0x3003, 1, 1, 0, eventgroups=frozenset({1, 2}))
+    # every other scenario the description leaves the instance open (0xFFFF: "any instance", which matching supports on the
+    # server side too) and the subscribers name two concrete instances: each is a subscription of its own
+    import zlib
+    wild = zlib.crc32(str(seed).encode()) % 2 == 0
+    svc = C.Service(0x3003, 0xFFFF if wild else 1, 1, 0, eventgroups=frozenset({1, 2}))
+    if wild:
+        ctx.count("twin_listener_scenarios_with_the_instance_left_open")
     insts = [S.ServiceInstance(svc, listener(n), prot.announcer, tm) for n in (1, 2)]
 
     def setup():
@@ -596,20 +602,20 @@ def twin_listeners(ctx, seed, replay):
     for k in range(rng.randrange(4, 22)):
         t += rng.choice((2.0 ** -6, 0.125, 0.5, 0.75, 1.5)) + 2.0 ** -12
         a = rng.choice(subs)
-        eg = rng.choice((1, 2))
+        eg = (rng.choice((1, 2)) if wild else 1, rng.choice((1, 2)))
         ep = [refwire.ep4("10.0.6.1", 4000)] if a == subs[0] else [refwire.ep6("2001:db8::6", 4000)]
         for key in [key for key, d in live.items() if d <= t]:
             del live[key]
         r = rng.random()
         if r < 0.45:
             ttl = rng.choice((2, 2, FOREVER))
-            ents, what = [net.subscribe(0x3003, 1, 1, eg, ttl, o1=ep)], "sub"
+            ents, what = [net.subscribe(0x3003, eg[0], 1, eg[1], ttl, o1=ep)], "sub"
             live[(a, eg)] = math.inf if ttl == FOREVER else t + ttl
         elif r < 0.7:
-            ents, what = [net.subscribe(0x3003, 1, 1, eg, 0, o1=ep)], "stop"
+            ents, what = [net.subscribe(0x3003, eg[0], 1, eg[1], 0, o1=ep)], "stop"
             live.pop((a, eg), None)
         elif r < 0.88:
-            ents, what = [net.subscribe(0x3003, 1, 1, eg, 0, o1=ep), net.subscribe(0x3003, 1, 1, eg, 2, o1=ep)], "stop+sub"
+            ents, what = [net.subscribe(0x3003, eg[0], 1, eg[1], 0, o1=ep), net.subscribe(0x3003, eg[0], 1, eg[1], 2, o1=ep)], "stop+sub"
             live[(a, eg)] = t + 2
         else:
             sess[a].reboot()
